@@ -39,6 +39,7 @@ def _cases():
         "R2-count-narrowed": (lambda c, r: r2.check_no_count_narrowing(None, 0)(c, r, config="default"), "zero_digits|", ["zero_digits_mod"]),
         "R3c-operand-overflow": (lambda c, r: r3.check_operand_overflow(c, r, config="default"), "top_bit_mask|exp|Add", ["succ_checked"]),
         "R3c-operand-overflow-abs": (lambda c, r: r3.check_operand_overflow(c, r, config="default"), "scale_by|k|abs", ["scale_by_total"]),
+        "R3c-shift-range": (lambda c, r: r3.check_shift_amount_range(c, r, config="default"), "low_mask|shift amount 1..=64", ["low_mask_ok"]),
         "R3c-digit-step": (lambda c, r: r3.check_digit_step_checked(c, r, config="default"), "borrow_one|- 1", ["bump_low"]),
         "R1-constant-cut": (lambda c, r: r1.check_no_constant_cut(c, r, config="default"), "add_assign|resize(2)", []),
         "R2-operand-narrowed": (lambda c, r: r2.check_no_operand_narrowing(c, r, config="default"), "Shl<u64>", []),
